@@ -347,7 +347,9 @@ func checkResponsePlacement(d *spec.Design, m *spec.Method, resp *spec.Response,
 		got, present := hdr[http.CanonicalHeaderKey(name)]
 		switch {
 		case v == nil:
-			if present {
+			// (a defaulted attribute lives in a non-pointer field: the server cannot tell "left unset" from the zero
+			// value and sends the zero value's text - that much is the design of the generated types, not a misplacement)
+			if f := rt.Field(attr); present && !(f != nil && f.HasDef) {
 				errs = append(errs, fmt.Sprintf("response header %s sent (%q) for unset attribute %s", name, got, attr))
 			}
 		case !present:
@@ -369,7 +371,7 @@ func checkResponsePlacement(d *spec.Design, m *spec.Method, resp *spec.Response,
 		}
 		switch {
 		case v == nil:
-			if c != nil {
+			if f := rt.Field(attr); c != nil && !(f != nil && f.HasDef) {
 				errs = append(errs, fmt.Sprintf("response cookie %s sent for unset attribute %s", name, attr))
 			}
 		case c == nil:
